@@ -33,6 +33,8 @@ def build_expr(e):
         return sympy.Float(e[1])
     if tag == "I":
         return sympy.I
+    if tag == "cplx":
+        return complex(e[1], e[2])
     if tag == "neg":
         return -_sx(e[1])
     if tag == "sqrt":
